@@ -94,3 +94,40 @@ MUTANTS += [
         (RG, "        adj[verts[i]] = random.sample(verts, k)\n",
              "        adj[verts[i]] = random.SystemRandom().sample(verts, k)\n")]),
 ]
+
+PT = "edgegraph/output/plaintext.py"
+MUTANTS += [
+    # ---------------- C16 -------------------------------------------------
+    dict(id="c16_revert_fix_d16", props=["C16"], edits=[(PT, "        if nbs:\n            line = line[:-2]\n", "        line = line[:-2]\n")]),
+    dict(id="c16_dedup_neighbours", props=["C16"], edits=[
+        (PT, "            nbs = helpers.neighbors(vert)\n", "            nbs = list(dict.fromkeys(helpers.neighbors(vert)))\n")]),
+    dict(id="c16_sort_only_vertices", props=["C16"], edits=[
+        (PT, "            nbs = sorted(helpers.neighbors(vert), key=sort)\n", "            nbs = helpers.neighbors(vert)\n")]),
+    dict(id="c16_neighbours_limited_to_universe", props=["C16"], edits=[
+        (PT, "            nbs = helpers.neighbors(vert)\n", "            nbs = [n for n in helpers.neighbors(vert) if n in verts]\n")]),
+    dict(id="c16_rfunc_not_used_for_neighbours_when_sorting", props=["C16"], edits=[
+        (PT, "            if rfunc:\n                node = rfunc(end)\n", "            if rfunc and not (sort and end is vert):\n                node = rfunc(end)\n")]),
+]
+
+PU = "edgegraph/output/plantuml.py"
+MUTANTS += [
+    # ---------------- C14 -------------------------------------------------
+    dict(id="c14_swap_titles", props=["C14"], edits=[
+        (PU, '    out = f"{v1puml} {v1e}--{v2e} {v2puml}\\n"', '    out = f"{v2puml} {v1e}--{v2e} {v1puml}\\n"')]),
+    dict(id="c14_swap_arrow_ends_for_subclasses", props=["C14"], edits=[
+        (PU, '    v1e = opts["v1side"]\n    v2e = opts["v2side"]\n',
+             '    v1e = opts["v1side"]\n    v2e = opts["v2side"]\n    if type(lnk) not in options:\n        v1e, v2e = v2e, v1e\n')]),
+    dict(id="c14_links_list_not_set", props=["C14"], edits=[
+        (PU, "    links = set()\n", "    links = []\n"),
+        (PU, "        links |= set(vert.links)\n", "        links += list(vert.links)\n")]),
+    dict(id="c14_selfloops_dropped", props=["C14"], edits=[
+        (PU, "    for link in links:\n        components.append(_one_link_to_puml(link, options))",
+             "    for link in links:\n        if link.v1 is link.v2:\n            continue\n        components.append(_one_link_to_puml(link, options))")]),
+    dict(id="c14_mro_first_parent_only", props=["C14"], edits=[
+        (PU, "        search = clas.__mro__[mro_idx]\n", "        search = clas.__mro__[min(mro_idx, 1)] if clas.__mro__[1] in options else clas.__mro__[mro_idx + (1 if mro_idx + 1 < len(clas.__mro__) and clas.__mro__[mro_idx + 1] in options and clas.__mro__[mro_idx] in options and mro_idx > 1 else 0)]\n")]),
+    dict(id="c14_parallel_links_merged", props=["C14"], edits=[
+        (PU, "    for link in links:\n        components.append(_one_link_to_puml(link, options))",
+             "    for text in {_one_link_to_puml(link, options) for link in links}:\n        components.append(text)")]),
+    dict(id="c14_title_uses_parent_options", props=["C14"], edits=[
+        (PU, "    v2ops = _resolve_options(type(v2), options)\n", "    v2ops = _resolve_options(type(v1), options)\n")]),
+]
